@@ -495,4 +495,39 @@ pub mod __verif_tree {
             ("OPTIONS", dump_node(&router.OPTIONS, Method::OPTIONS).await),
         ]
     }
+
+    /// a proc that answers with a response prepared by a plain function, handed over through a future
+    /// that is not a coroutine
+    struct Prepared(fn() -> Response);
+    impl FangProcCaller for Prepared {
+        fn call_bite<'b>(&'b self, _: &'b mut Request) -> std::pin::Pin<Box<dyn crate::fang::SendOnNativeFuture<Response> + 'b>> {
+            Box::pin(std::future::ready((self.0)()))
+        }
+    }
+
+    /// like `node`, with a `proc` that answers `make()`
+    pub fn node_with_proc(pattern: Option<&'static [u8]>, children: &'static [Tree], make: fn() -> Response) -> Tree {
+        let mut tree = node(pattern, children);
+        tree.0.proc = crate::fang::BoxedFPC::from_proc(Prepared(make));
+        tree
+    }
+
+    pub struct VRouter(Router);
+
+    /// a `Router` whose GET tree is `get`; the trees of the other methods are empty roots
+    pub fn router(get: Tree) -> VRouter {
+        VRouter(Router {
+            GET:     get.0,
+            PUT:     node(Some(b""), &[]).0,
+            POST:    node(Some(b""), &[]).0,
+            PATCH:   node(Some(b""), &[]).0,
+            DELETE:  node(Some(b""), &[]).0,
+            OPTIONS: node(Some(b""), &[]).0,
+        })
+    }
+
+    /// the future of the real `Router::handle` (per-method tree selection, HEAD rule, `complete()`)
+    pub fn handle<'a>(router: &'a VRouter, req: &'a mut Request) -> impl std::future::Future<Output = Response> + 'a {
+        router.0.handle(req)
+    }
 }
